@@ -91,12 +91,19 @@ func TestVerif_C16_Child(t *testing.T) {
 		v := c16Write(seed, cycle, i, idspace, b)
 		bs, _ := v.Marshal()
 		id := VaaIDFromVAA(v).ToString()
+		// a lookup before the store (it may miss) and one right after the acknowledgement, on the same open store
+		_, _ = d.GetSignedVAABytes(*VaaIDFromVAA(v))
 		fmt.Printf("TRY %d %s %s\n", i, id, sha(bs))
 		if err := d.StoreSignedVAA(v); err != nil {
 			fmt.Printf("ERR %d %v\n", i, err)
 			continue
 		}
 		fmt.Printf("ACK %d %s %s\n", i, id, sha(bs))
+		if rb, err := d.GetSignedVAABytes(*VaaIDFromVAA(v)); err != nil {
+			fmt.Printf("RBERR %d %s %v\n", i, id, strings.ReplaceAll(err.Error(), "\n", " "))
+		} else if sha(rb) != sha(bs) {
+			fmt.Printf("RBERR %d %s returned-sha-%s\n", i, id, sha(rb))
+		}
 		if self && i == k {
 			_ = syscall.Kill(os.Getpid(), syscall.SIGKILL)
 			time.Sleep(time.Hour)
@@ -145,6 +152,7 @@ func runC16(c c16Case) (*vh.Violation, vh.Outcome) {
 		}
 		acks, tries := 0, 0
 		opened, openFail := false, ""
+		readback := ""
 		pending := map[string]string{} // try index -> id|sha not yet acked
 		sc := bufio.NewScanner(stdout)
 		sc.Buffer(make([]byte, 1<<16), 1<<20)
@@ -158,6 +166,10 @@ func runC16(c c16Case) (*vh.Violation, vh.Outcome) {
 				opened = true
 			case "OPENFAIL":
 				openFail = sc.Text()
+			case "RBERR":
+				if readback == "" {
+					readback = sc.Text()
+				}
 			case "TRY":
 				if len(f) == 4 {
 					tries++
@@ -194,6 +206,9 @@ func runC16(c c16Case) (*vh.Violation, vh.Outcome) {
 		}
 		if openFail != "" || (!opened && ci > 0 && cy.Kill != "delay") {
 			return vh.V("C16/store-does-not-reopen", "cycle %d: the child could not reopen the store after the previous kill: %s", ci, openFail), out
+		}
+		if readback != "" {
+			return vh.V("C16/acknowledged-write-not-readable", "cycle %d: a lookup right after the acknowledged store, on the same open store, did not return the stored VAA: %s", ci, readback), out
 		}
 		if acks > 0 && len(pending) > 0 {
 			out.NonTrivial = true
